@@ -37,7 +37,7 @@ func TestVerifReplayC19Formats(t *testing.T) {
 		os.WriteFile(filepath.Join(dir, fmt.Sprintf("st.%d", k)), []byte(fmt.Sprint(st)), 0o644)
 	}
 	mk := func(tag string) string {
-		return fmt.Sprintf("n=$(wc -l < %s); echo %s >> %s; echo out-%s; exit $(cat %s/st.$((n)))", trace, tag, trace, tag, dir)
+		return fmt.Sprintf("n=$(wc -l < %s); echo %s >> %s; echo out-%s; echo err-%s >&2; exit $(cat %s/st.$((n)))", trace, tag, trace, tag, tag, dir)
 	}
 	tk := task.FromCommands(mk("c0"))
 	tk.Name = "tk"
@@ -58,7 +58,7 @@ func TestVerifReplayC19Formats(t *testing.T) {
 		r.OutputFormat = f
 		e := r.Run(&tc)
 		raw, _ := os.ReadFile(trace)
-		results[f] = fmt.Sprintf("err=%v skipped=%v errored=%v exit=%d ran=%v", e != nil, tc.Skipped, tc.Errored, tc.ExitCode, strings.Fields(string(raw)))
+		results[f] = fmt.Sprintf("err=%v skipped=%v errored=%v exit=%d ran=%v recorded stdout=%q stderr=%q output=%q", e != nil, tc.Skipped, tc.Errored, tc.ExitCode, strings.Fields(string(raw)), tc.Log.Stdout.String(), tc.Log.Stderr.String(), tc.Output())
 	}
 	fmt.Printf("REPLAY: raw: %s\nREPLAY: %s: %s\n", results["raw"], format, results[format])
 	if results["raw"] != results[format] {
